@@ -312,6 +312,11 @@ def run(ctx):
     pairs = [c for c in cases if len(c["restr"]) == 2]
     reals = by_class.get("real", [])
     phase("parse_dump")
+    # the single-restriction tables and the real-table configurations are executed while the -simulate run (one
+    # worker) is still producing the pairs
+    first = singles + reals
+    events = common.pmap(exec_case, [(i + 1, c) for i, c in enumerate(first)])
+    phase("implementation_singles_and_real")
     if mr == 1:
         sim = sim_future.result()
         seen = set()
@@ -326,13 +331,12 @@ def run(ctx):
         npairs = len(pairs)
         pairs = pairs[:24000]
         pair_note = "seeded sample of %d of the %d pairs of the exhaustively explored model" % (len(pairs), npairs)
-    phase("tlc_simulate")
-    todo = singles + pairs + reals
-    jobs = [(i + 1, c) for i, c in enumerate(todo)]
-    events = common.pmap(exec_case, jobs)
+    phase("tlc_simulate_wait")
+    todo = first + pairs
+    events += common.pmap(exec_case, [(len(first) + i + 1, c) for i, c in enumerate(pairs)])
     for e, c in zip(events, todo):
         e["_case"] = c
-    phase("implementation")
+    phase("implementation_pairs")
     wire = _wire(events)
     alarms, dis, ress = judge_events(wire, events, ctx.pick(6, 8))
     phase("trace_validation")
